@@ -1,7 +1,7 @@
 (* C14 (ILP part) — goodput objective of the ILP planner.  Soundness: the objective value of EVERY
    satisfying assignment is the goodput of the plan it reads back as (and that plan is feasible:
    C10_ilp / C11_ilp / C12_ilp).  Completeness is FALSE of the code as written (F11-ii, F11-iii,
-   ILP-iv below).  Only statements; proofs are in Proofs/IlpP14.v. *)
+   F22 below).  Only statements; proofs are in Proofs/IlpP14.v. *)
 From Coq Require Import ZArith Bool List.
 Import ListNotations.
 From Verif Require Import Model.Val Gen.Src_Ilp Model.IlpModel Proofs.IlpP Proofs.IlpP11 Proofs.IlpP10 Proofs.IlpP14 Proofs.IlpP14s.
@@ -39,6 +39,20 @@ Theorem C14_ilp_three_way_overcharge : forall I a, sat (gen_ilp I) a -> nodup_id
 Proof. exact three_way_overcharge. Qed.
 Print Assumptions C14_ilp_three_way_overcharge.
 
+(* F11-ii across workers: the capacity row of t1 for worker w exists even when t1 runs on another worker, and then
+   forbids two tasks of w that both overlap t1 in time unless they fit w TOGETHER *)
+Theorem C14_ilp_cross_worker_overcharge : forall I a, sat (gen_ilp I) a -> nodup_ids I -> rt_nonneg I -> req_nonneg I ->
+  forall t1 t2 t3 w1 w ks1 ks2 ks3 tau2 tau3 rq,
+  In t1 (i_tasks I) -> In t2 (i_tasks I) -> In t3 (i_tasks I) -> is_running t1 = false ->
+  t_id t1 <> t_id t2 -> t_id t1 <> t_id t3 -> t_id t2 <> t_id t3 ->
+  In w1 (wenum I) -> In w (wenum I) -> In rq (w_res (snd w)) -> In ks1 (senum t1) -> In ks2 (senum t2) -> In ks3 (senum t3) ->
+  dependent I t1 t2 = false -> dependent I t1 t3 = false ->
+  active_a I a t1 (w1, ks1) tau2 = true -> active_a I a t2 (w, ks2) tau2 = true ->
+  active_a I a t1 (w1, ks1) tau3 = true -> active_a I a t3 (w, ks3) tau3 = true ->
+  req (snd ks2) (fst rq) + req (snd ks3) (fst rq) <= snd rq.
+Proof. exact cross_worker_overcharge. Qed.
+Print Assumptions C14_ilp_cross_worker_overcharge.
+
 (* completeness refuted (F11-ii): 1 worker with 2 CPUs, T1 (10us, deadline 11), T2 (4, 5), T3 (4, 11), now = 0:
    the plan T1@1, T2@1, T3@6 is feasible (closed intervals) and finishes 3 graphs; no satisfying assignment exceeds 2 *)
 Theorem C14_ilp_completeness_refuted_three_way :
@@ -54,7 +68,7 @@ Theorem C14_ilp_completeness_refuted_running :
 Proof. exact completeness_refuted_running. Qed.
 Print Assumptions C14_ilp_completeness_refuted_running.
 
-(* completeness refuted (ILP-iv): one task whose deadline is before now + 1 makes the system unsatisfiable;
+(* completeness refuted (F22): one task whose deadline is before now + 1 makes the system unsatisfiable;
    schedule() then answers every offered task with `unplaced` although the other task fits *)
 Theorem C14_ilp_completeness_refuted_dead_task :
   feasible_clb ex_dead ex_dead_plan = true /\ goodput ex_dead ex_dead_plan = 1 /\
